@@ -432,7 +432,20 @@ def run_property(mod, tier, jobs=None, seed=0):
     if jobs > 1 and len(cases) > 1:
         ctxm = multiprocessing.get_context("fork")
         with ctxm.Pool(jobs, initializer=_worker_init) as pool:
-            results = pool.map(_worker, range(len(cases)), chunksize=1)
+            # hard deadline per case: the wall budget inside a case is checked between paths, so a call into the code
+            # under test that never returns (a wait nobody ends) would otherwise hang the whole check
+            pending = [pool.apply_async(_worker, (i,)) for i in range(len(cases))]
+            per_round = max(c.wall_s for c in cases) * 1.5 + 300
+            results = []
+            for i, a in enumerate(pending):
+                deadline = t0 + ((i // jobs) + 1) * per_round
+                try:
+                    results.append(a.get(max(1.0, deadline - time.time())))
+                except multiprocessing.TimeoutError:
+                    results.append({"case": cases[i].name, "tb": "",
+                                    "harness_error": "the case did not finish within its hard deadline (%d s): some call into the "
+                                                     "code under test never returned" % per_round})
+            pool.terminate()
     else:
         results = [_worker(i) for i in range(len(cases))]
 
